@@ -56,17 +56,36 @@ def main():
             props = [n.split("_")[0]] + EXTRA.get(n, [])
         for p in props:
             jobs.append((n, p))
-    if len(sys.argv) > 1:
+    if len(sys.argv) > 1 and sys.argv[1] == "--skip-done":
+        done = {(r["mutant"], r["property"]) for r in json.load(open(os.path.join(VERIF, "seeded", "MATRIX.json")))}
+        jobs = [j for j in jobs if j not in done]
+        sys.argv = sys.argv[:1] + ["partial"]
+    elif len(sys.argv) > 1:
         jobs = [j for j in jobs if any(a in j[0] or a == j[1] for a in sys.argv[1:])]
-    slots = 3
-    # sequential rounds of `slots` jobs: a scratch worktree is never used by two jobs at once
-    out = []
-    for k in range(0, len(jobs), slots):
-        with cf.ThreadPoolExecutor(slots) as ex:
-            rs = list(ex.map(run, [(n, p, s) for s, (n, p) in enumerate(jobs[k:k + slots])]))
-        out.extend(rs)
-        for r in rs:
-            print(json.dumps(r), flush=True)
+    slots = int(os.environ.get("MATRIX_SLOTS", "4"))
+    # a queue served by `slots` workers, each with its own scratch worktree (never used by two jobs at once)
+    import queue, threading
+    q = queue.Queue()
+    for j in jobs:
+        q.put(j)
+    out, lock = [], threading.Lock()
+
+    def worker(slot):
+        while True:
+            try:
+                n, p = q.get_nowait()
+            except queue.Empty:
+                return
+            r = run((n, p, slot))
+            with lock:
+                out.append(r)
+                print(json.dumps(r), flush=True)
+
+    ths = [threading.Thread(target=worker, args=(s,)) for s in range(slots)]
+    for t in ths:
+        t.start()
+    for t in ths:
+        t.join()
     path = os.path.join(VERIF, "seeded", "MATRIX.json")
     old = {}
     if os.path.exists(path) and len(sys.argv) > 1:
